@@ -31,7 +31,7 @@ COMPONENTS_STUB = ["RandomSource.randint/random_float (SimRandom)", "fitness fun
 ASSUMPTIONS = ["an operator that must evaluate may ADD a missing fitness or phenotype cache to an input individual, never change an existing one",
                "Individual.metadata (e.g. the generation tag written by Population) is not node metadata and is not compared"]
 
-FEAT = features(list=2, annlist=2, union=1, tuple=1, cls=8, refined=3, nested=1, standalone=1, dependent=1, concrete_start=2, flaky=1, self_ref=1, nested_list=1)
+FEAT = features(list=2, annlist=2, union=1, tuple=1, cls=8, refined=3, nested=1, standalone=1, dependent=1, concrete_start=2, flaky=1, self_ref=1, nested_list=1, falsy=1)
 
 
 def budget(tier):
